@@ -5,5 +5,5 @@ CONSTANTS
   Horizon = 240
   GenLen = 0
 VIEW ViewDeep
-INVARIANTS TypeOK HistBelow CurrentPresent
+INVARIANTS TypeOK HistBelow CurrentPresent CarrierFits
 PROPERTIES IdsIncreasing ACurrentValid ACurrentFresh AGetOnlyValid AIdsUnique ATrackedLifetime
